@@ -71,6 +71,9 @@ func pickTrack(r *rng.R) rateChoice {
 		}
 	case 1: // AAC
 		rate := stdRates[1+r.Intn(len(stdRates)-1)]
+		if r.Bool(1, 2) { // the rates whose access unit is not a whole number of ns, most used in practice
+			rate = []int64{44100, 48000, 22050, 88200}[r.Intn(4)]
+		}
 		return rateChoice{kind: "aac", rate: rate, t: 1024, name: fmt.Sprintf("aac%d", rate)}
 	case 2: // Opus
 		t := []int64{120, 240, 480, 960, 1920, 2880}[r.Intn(6)]
@@ -141,7 +144,13 @@ func genMux(r *rng.R, tier string) *muxCase {
 		c.SegMin = 0
 	}
 	c.SegCount = []int{0, 7, 7, 8, 10, 12}[r.Intn(6)]
-	c.Audio2 = (tc.kind == "h264" || tc.kind == "av1") && r.Bool(1, 5)
+	c.Audio2 = (tc.kind == "h264" || tc.kind == "av1") && r.Bool(1, 4)
+	if c.Audio2 {
+		// the non-leading AAC track: several access units per call at rates whose access unit is
+		// not a whole number of ns (it never cuts parts; the leading video decides)
+		c.A2Rate = []int64{48000, 44100, 22050, 88200, 32000}[r.Intn(5)]
+		c.A2Batch = 1 + r.Intn(5)
+	}
 
 	// first dts
 	switch r.Pick(3, 3, 2, 2) {
@@ -234,6 +243,25 @@ func genMux(r *rng.R, tier string) *muxCase {
 		}
 		c.Flags = append(c.Flags, fl)
 	}
+	// AAC-led: several access units per WriteMPEG4Audio call (the muxer derives the timestamps
+	// of the 2nd..nth unit of a call itself); the input cadence stays a constant 1024 samples
+	if tc.kind == "aac" && r.Bool(3, 5) {
+		fixed := 0
+		if r.Bool(2, 3) {
+			fixed = 2 + r.Intn(4)
+		}
+		for left := n; left > 0; {
+			b := fixed
+			if b == 0 {
+				b = 1 + r.Intn(5)
+			}
+			if b > left {
+				b = left
+			}
+			c.Batch = append(c.Batch, b)
+			left -= b
+		}
+	}
 	return c
 }
 
@@ -324,7 +352,7 @@ type finding struct {
 	at    int64
 }
 
-func oracle(c *muxCase, obs *muxObs) []finding {
+func oracle(c *muxCase, obs *muxObs, side bool) []finding {
 	if !c.Constant {
 		return nil
 	}
@@ -385,6 +413,24 @@ func oracle(c *muxCase, obs *muxObs) []finding {
 		prev = v
 		prevErrs = obs.errsAt[i]
 	}
+	// Where c19_side holds the theorems promise ONE sample count for every non-final part, so in
+	// media time (the sample durations of the served part files) every non-final part lasts
+	// exactly the same number of ticks, count * T for the constant input cadence T. No
+	// tolerance: a +-1 tick difference between parts is an irregularity.
+	if side {
+		total := int64(len(c.Flags))
+		for i, p := range obs.NonFinal {
+			q := obs.NonFinal[0]
+			if p.N != q.N || p.Ticks != q.Ticks {
+				report("same-duration-ticks", fmt.Sprintf("non-final parts #0 and #%d hold %d and %d samples lasting %d and %d ticks", i, q.N, p.N, q.Ticks, p.Ticks), total)
+				break
+			}
+			if p.Ticks != p.N*c.T {
+				report("same-duration-ticks", fmt.Sprintf("non-final part #%d holds %d samples lasting %d ticks, the input cadence is %d ticks per sample", i, p.N, p.Ticks, c.T), total)
+				break
+			}
+		}
+	}
 	return out
 }
 
@@ -441,12 +487,22 @@ func (c *muxCase) coq(o *muxObs) string {
 		vs = append(vs, fmt.Sprintf("{| v_k := %s; v_pt := %s; v_segs := %s; v_next := %s |}",
 			coqfmt.Z(v.K), coqfmt.Z(v.PL.PartTargetNS), coqfmt.List(sg), coqZs(v.PL.Next)))
 	}
+	var calls []string
+	sz := c.callSizes()
+	for k := 0; k < len(sz); {
+		j := k
+		for j < len(sz) && sz[j] == sz[k] {
+			j++
+		}
+		calls = append(calls, "("+coqfmt.Z(int64(j-k))+","+coqfmt.Z(int64(sz[k]))+")")
+		k = j
+	}
 	return fmt.Sprintf("CRun {| clockRate := %s; partMinDuration := %s; segmentMinDuration := %s; segmentCount := %s |}\n  (mkwsr %s %s)\n"+
-		"  {| ro_published := %s; ro_next := %s; ro_retained := %s; ro_adjusted := %s; ro_freeze := %s;\n     ro_pt_trace := %s; ro_errors := %s; ro_views := %s |}",
+		"  {| ro_published := %s; ro_next := %s; ro_retained := %s; ro_adjusted := %s; ro_freeze := %s;\n     ro_calls := %s; ro_pt_trace := %s; ro_errors := %s; ro_views := %s |}",
 		coqfmt.Z(c.Rate), coqfmt.Z(c.effPartMin()), coqfmt.Z(c.effSegMin()), coqfmt.Z(c.effSegCount()),
 		coqfmt.Z(c.D0), coqfmt.List(ws),
 		coqfmt.List(pub), coqParts(o.Next), coqfmt.List(ret), coqfmt.Z(o.Adjusted), coqfmt.Bool(o.Freeze),
-		coqfmt.List(tr), coqfmt.Z(o.Errors), coqfmt.List(vs))
+		coqfmt.List(calls), coqfmt.List(tr), coqfmt.Z(o.Errors), coqfmt.List(vs))
 }
 
 type shardWriter struct {
@@ -595,6 +651,17 @@ func main() {
 			return f
 		}
 		_ = vflags
+		batches := func(n, b int) []int {
+			var out []int
+			for n > 0 {
+				if b > n {
+					b = n
+				}
+				out = append(out, b)
+				n -= b
+			}
+			return out
+		}
 		keysAt := func(n int, at ...int) []int {
 			f := make([]int, n)
 			for _, i := range at {
@@ -617,6 +684,16 @@ func main() {
 				PartMin: 234000000, SegMin: 1000000000, SegCount: 7, PMClass: "whole-ms"},
 			&muxCase{Kind: "aac", Rate: 88200, Constant: true, T: 1024, D0: 0, Deltas: rep(1024, 200), Flags: aflags(200),
 				PartMin: 70000000, SegMin: 1000000000, SegCount: 7, PMClass: "whole-ms"},
+			// several access units per WriteMPEG4Audio call, parts of an odd number of units
+			// (48 kHz / 100 ms: 5 units; 44.1 kHz / 100 ms: 5; 22.05 kHz / 200 ms: 5; 88.2 kHz / 80 ms: 7)
+			&muxCase{Kind: "aac", Rate: 48000, Constant: true, T: 1024, D0: 0, Deltas: rep(1024, 240), Flags: aflags(240),
+				Batch: batches(240, 2), PartMin: 100000000, SegMin: 1000000000, SegCount: 7, PMClass: "whole-ms"},
+			&muxCase{Kind: "aac", Rate: 44100, Constant: true, T: 1024, D0: 4410, Deltas: rep(1024, 240), Flags: aflags(240),
+				Batch: batches(240, 4), PartMin: 100000000, SegMin: 1000000000, SegCount: 7, PMClass: "whole-ms"},
+			&muxCase{Kind: "aac", Rate: 22050, Constant: true, T: 1024, D0: 0, Deltas: rep(1024, 150), Flags: aflags(150),
+				Batch: batches(150, 3), PartMin: 200000000, SegMin: 2000000000, SegCount: 7, PMClass: "whole-ms"},
+			&muxCase{Kind: "aac", Rate: 88200, Constant: true, T: 1024, D0: 0, Deltas: rep(1024, 300), Flags: aflags(300),
+				Batch: batches(300, 5), PartMin: 80000000, SegMin: 1000000000, SegCount: 7, PMClass: "whole-ms"},
 		)
 		for i := 0; i < *nmux; i++ {
 			muxInputs = append(muxInputs, genMux(rng.New(*seed, uint64(1)<<32+uint64(i)), *tier))
@@ -650,7 +727,7 @@ func main() {
 		r := rng.New(*seed, uint64(3)<<32+uint64(id))
 		var views []int
 		for i := 0; i < 3; i++ {
-			views = append(views, r.Intn(len(c.Flags)))
+			views = append(views, r.Intn(len(c.callSizes())))
 		}
 		obs, err := runMuxer(c, views)
 		input, _ := json.Marshal(map[string]interface{}{"mux": c})
@@ -675,12 +752,24 @@ func main() {
 			side = sideHolds(c.Rate, c.T, c.effPartMin())
 			dist["c19_side:"+sideName(side)]++
 		}
-		for _, f := range oracle(c, obs) {
+		for _, f := range oracle(c, obs, side) {
 			// minimise: cut the writes after the failing one
 			mc := *c
 			if int(f.at) < len(mc.Flags) {
 				mc.Flags = mc.Flags[:f.at]
 				mc.Deltas = mc.Deltas[:f.at]
+				if len(mc.Batch) > 0 {
+					t, n := 0, 0
+					for n < len(mc.Batch) && t < int(f.at) {
+						t += mc.Batch[n]
+						n++
+					}
+					mc.Batch = mc.Batch[:n:n]
+					if t != int(f.at) { // not a call boundary: keep the whole last call
+						mc.Flags = c.Flags[:t]
+						mc.Deltas = c.Deltas[:t]
+					}
+				}
 			}
 			mi, _ := json.Marshal(map[string]interface{}{"mux": &mc})
 			failures = append(failures, failure{
@@ -716,6 +805,18 @@ func main() {
 			}
 		}
 		dist["kind:"+c.Kind]++
+		if c.Kind == "aac" {
+			mx := 1
+			for _, b := range c.Batch {
+				if b > mx {
+					mx = b
+				}
+			}
+			dist[fmt.Sprintf("aac_led:max_access_units_per_call:%d", mx)]++
+		}
+		if c.Audio2 && c.A2Batch > 1 {
+			dist["video_led:non_leading_aac_multi_au_calls"]++
+		}
 		dist["partmin:"+c.PMClass]++
 		if c.Constant {
 			dist["durations:constant"]++
@@ -756,7 +857,7 @@ func main() {
 		"evaluations":         evaluations,
 		"distinct_nontrivial": nontrivial,
 		"rule": "muxer runs from splitmix64(seed, case index): leading H264/AV1 at 90 kHz (integer frame rates 1-120, 1001-based), AAC at 13 sample rates, Opus at 6 frame sizes; " +
-			"PartMinDuration whole ms / arbitrary ns / floor(n samples)+{0,1,2} ns in [50 ms, 2 s]; SegmentMinDuration, SegmentCount, first dts (incl. rejected negative prefix), GOP regular or random, parameter changes; " +
+			"AAC-led runs write 1-5 access units per WriteMPEG4Audio call (fixed or random per call), video-led runs optionally feed a non-leading AAC track the same way; PartMinDuration whole ms / arbitrary ns / floor(n samples)+{0,1,2} ns in [50 ms, 2 s]; SegmentMinDuration, SegmentCount, first dts (incl. rejected negative prefix), GOP regular or random, parameter changes; " +
 			"distinct by SHA-256 of the input; non-trivial = >=2 completed segments AND some playlist listing >=3 non-final parts. Pure-function cases are counted in evaluations only.",
 		"samples":                       samples,
 		"distribution":                  dist,
